@@ -113,21 +113,22 @@ class GraphConfigImpl:
             node = self._get_node(node_id)
 
             if node is None:
-                node_type = NodeType.by_prefix(node_id)
+                node_type = NodeType.by_prefix(node_id).value
 
             elif node.node_type is None:
                 node_type = None
                 warnings.warn(f'Node {node_id} without node type.', stacklevel=1)
 
             else:
-                node_type = NodeType(node.node_type)
+                # A node may declare a type of its own (e.g. 'ml_model'), not only one of the engine's types
+                node_type = getattr(node.node_type, 'value', node.node_type)
 
             if node_type in node_types or node_type is None:
                 continue
 
-            node_types[node_type.value] = schema.NodeType(
-                name=node_type.value,
-                hex_bgr_color=node_colors.get(node_type.value),
+            node_types[node_type] = schema.NodeType(
+                name=node_type,
+                hex_bgr_color=node_colors.get(node_type),
             )
 
         return node_types
